@@ -134,6 +134,29 @@ def run(ctx):
             if n == "braille" and iv and v and os.path.dirname(iv) == os.path.dirname(v) and iv.endswith("_Rules.yaml") and c not in codes:
                 continue
             disagreements.append({"config": [l, s, c], "file": n, "impl": iv, "model": v, "lines": lines})
+    # 1b. "an unknown language falls back to English": where the model resolves every speech-side file to Languages/en, the answers are the English ones
+    FB = ["<math><mfrac><mn>1</mn><mn>2</mn></mfrac><mo>+</mo><mroot><mi>x</mi><mn>5</mn></mroot></math>", "<math><msup><mi>x</mi><mn>3</mn></msup><mo>+</mo><mfrac><mn>2</mn><mn>3</mn></mfrac><mo>≤</mo><mn>21</mn></math>",
+          "<math><mrow><munderover><mo>∑</mo><mrow><mi>k</mi><mo>=</mo><mn>1</mn></mrow><mn>10</mn></munderover><msup><mi>k</mi><mn>2</mn></msup></mrow><mo>⊕</mo><mi>ℵ</mi></math>"]
+    def fb_answers(lang):
+        lines = core.prelude([{"op": "set_pref", "name": "Language", "value": lang}])
+        for x in FB:
+            lines += [{"op": "set_mathml", "xml": x}, {"op": "speech"}, {"op": "overview"}, {"op": "nav", "cmd": "ZoomIn"}]
+        rep = im.run([{"op": "session"}] + lines)[1:]
+        return [r.get("v") if r.get("r") == "ok" else {"r": r.get("r")} for q, r in zip(lines, rep) if q["op"] in ("speech", "overview", "nav")], lines
+    en_answers, _ = fb_answers("en")
+    n_fb = 0
+    for l in odd_langs:
+        mres = mo.run([{"op": "resolve_files", "dirs": dirs, "files": files, "lang": l, "style": "ClearSpeak", "code": "Nemeth"}])[0]
+        if mres.get("r") != "ok":
+            continue
+        speech_side = [v for n, v in mres["v"]["files"] if n in ("speech", "overview", "navigation", "speech_unicode", "speech_unicode_full", "speech_defs")]
+        if not speech_side or not all(v and v.startswith("Languages/en/") and not v.startswith("Languages/en/gb") for v in speech_side):
+            continue
+        got, lines = fb_answers(l)
+        n_fb += 1
+        if got != en_answers and not any(isinstance(g, dict) for g in got[:1]):
+            k = next(i for i in range(len(got)) if got[i] != en_answers[i])
+            oracle_fail.append({"why": "a language that falls back to English does not give the English answer", "config": [l], "got": got[k], "english": en_answers[k], "lines": lines})
     # 2. every shipped configuration works on the corpus
     C = corpus()
     xmls = [mml.to_xml(t, ns_decl=False) for t in C]
@@ -183,6 +206,7 @@ def run(ctx):
         "rule": "resolution: every language directory, regional variant and 12 unknown/odd tags x every style file name + an unknown one x braille codes + an unknown one, the eleven resolved files "
                 "compared with the model (hook H6); operation: every language x style x a verbosity (thorough: all) with a braille code, and every braille code, over a corpus of "
                 + str(len(xmls)) + " expressions covering the element kinds and the common intents: speech, overview, braille and two navigation commands must answer. non-trivial = resolutions compared",
+        "fallback_languages_compared_with_english": n_fb,
         "languages": langs, "styles": sty, "braille_codes": codes, "configurations_run": len(cfgs), "corpus": len(xmls), "listing": {"dirs": len(dirs), "files": len(files)},
         "failure_kinds": {" / ".join(k): v for k, v in sorted(kinds.items(), key=lambda kv: -kv[1])[:12]},
         "model_vs_impl_disagreements": [{k: v for k, v in d.items() if k != "lines"} for d in disagreements[:8]], "n_disagreements": len(disagreements),
@@ -192,7 +216,7 @@ def run(ctx):
         ctx.violation("implementation violates C15: " + json.dumps({k: v for k, v in f.items() if k not in ("lines",)}, ensure_ascii=False)[:500],
                       {"kind": "impl-vs-oracle", "case": {k: v for k, v in f.items() if k != "lines"}, "lines": f["lines"]}, tag="oracle",
                       signature={"kind": "c15-oracle", "why": f["why"], "why_prefix": f["why"], "subject": f["config"][0] if len(f["config"]) == 1 else ""})
-    found = bool(oracle_fail)
+    found = bool(ctx.violations)          # (failures attributed to a known finding do not count)
     if not pr["ok"] and not found:
         ctx.violation("theorem(s) no longer check: " + ", ".join(pr["failed"]), {"kind": "theorem", "theorems": pr["failed"], "lean_output": pr["output"][-1500:]}, tag="theorem", no_input=True)
     if disagreements and not found:
